@@ -47,6 +47,10 @@ PROP = dict(
              "(chosen against the harness's own substitution): apostrophes and double quotes in odd and even numbers (o'clock, it's, 5\", rock'n'roll, 'q', say \"hi\", '') in the text "
              "around an expression, inside a placeholder's default (`${k:don't panic}`, key absent or configured), in a plain literal, inside a string literal of the expression "
              "(\"it's\", an escaped \\\") on string / any / *string / int fields - a quote is an ordinary byte of a tag, the argument behind it must be parsed and validation must run; "
+             "after these, one further case per twelve (validation pairs, expressions with a constraint, pointer-to-zero pairs, nested sections, quote texts; cases with a validate argument preferred) "
+             "has its tagged field in an ANONYMOUS EMBEDDED STRUCT of the holder, one or two levels deep, by value (flags e1 e2: reflect.StructOf with Anonymous fields, an untagged field of its own on "
+             "every level, no top-level tag mentioning validate; the corpus also has four Go-declared holders with Go's own embedding, flag g<n>): the container flattens embedded structs into the "
+             "holder's properties, so start-up must fail iff the constraint is violated exactly as for a field of the holder itself (validate-iff / expr-result / bind-direct); "
              "30% of the holders also carry an optional wire dependency (both property groups exist) and are started 4 times, every start must agree (oracle start-unstable); non-trivial = all; distinct = distinct scenario lines",
         trusted_base=COMMON_TB + ["the go/ast facts translator for Facts.builtinProcessors / orderConsts",
                                   "expr-lang/expr and go-playground/validator themselves (opaque; called directly by the oracle)",
